@@ -21,12 +21,29 @@ def gen_table(rng, flavour=None, evil=0.0):
         by[51]["default"], by[51]["factory"] = None, rng.choice([("dict", [(V(1), V(1))]), ("dict", [(S(7), S(8))])])
     if rng.random() < evil:
         by[52]["default"], by[52]["factory"] = None, ("set", [S(7)])
+    if rng.random() < 0.5:       # Union and Optional[spec] positions (not in the shared grammar)
+        k2["attrs"].append({"aid": 6, "ty": ("union", ig.INT, ig.STR), "default": rng.choice([None, V(1), S(7)]),
+                            "decl": rng.choice(["plain", "Attr"])})
+        k2["attrs"].append({"aid": 8, "ty": ("opt", ("spec", 1)), "default": rng.choice([None, NONE])})
+        k3["attrs"][-1:-1] = [{"aid": 6, "inherited": True}, {"aid": 8, "inherited": True}]
     if rng.random() < evil / 2:  # preparer on the leaf class
         k1["attrs"][1]["prepare"] = ("const", S(7))
     return table
 
 
 class Hist(ig.Hist):
+    def value_for(self, a, bad=False):
+        t = a["ty"]
+        if t == ("union", ig.INT, ig.STR):
+            if bad:
+                return self.rng.choice([NONE, self.alloc(("list", [V(1)])), ("atom", 0)])
+            return self.rng.choice([V(2), S(8), ("bool", True)])
+        if t == ("opt", ("spec", 1)):
+            if not bad and self.rng.random() < 0.3:
+                return NONE
+            return self.k1_value(bad)
+        return super().value_for(a, bad)
+
     def k1_dict(self, bad):
         rng = self.rng
         kv = [(S(1), V(rng.choice([0, 1])) if not bad else rng.choice([S(7), NONE]))]
